@@ -379,6 +379,9 @@ func (g *gen) literal(nRandom int) []program {
 	for _, t := range literalTemplates {
 		ps = append(ps, program{Src: t, Kind: "literal", Inputs: in})
 	}
+	for i, t := range sharedNatives {
+		ps = append(ps, program{Src: sharedContainers[i%len(sharedContainers)] + " | " + t, Kind: "literal", Inputs: in})
+	}
 	for i := 0; i < nRandom; i++ {
 		v := g.value(0, 3)
 		ps = append(ps, program{Src: jsonText(v) + " | " + g.op(v), Kind: "literal", Inputs: in})
@@ -442,11 +445,36 @@ var updateMust = []string{
 	`tostream`, `[paths]`, `pick(.a.b)`, `. * {"a":{"z":1}}`, `. * .`, `.b = .`,
 }
 
+// sharedNatives: every builtin that consumes a whole array / object, applied to a container of
+// mixed scalars and containers. On a code constant (kind literal) and on the one shared input
+// (kind update) any write by the builtin — even one that leaves every output unchanged, such as
+// replacing 1 by "1" before joining — is a data race.
+var sharedNatives = []string{
+	`join(",")`, `join("")`, `(join(1))?`, `sort`, `sort_by(.)`, `sort_by(tojson)`, `group_by(type)`, `unique`, `unique_by(type)`, `min`, `max`, `min_by(tojson)`, `max_by(tojson)`, `(add)?`, `add(.[]?; 0)?`, `flatten`, `flatten(1)`, `reverse`,
+	`tostring`, `tojson`, `@json`, `(@csv)?`, `(@tsv)?`, `(@sh)?`, `@html`, `@text`, `@base64`, `@uri`, `(implode)?`, `(transpose)?`, `[limit(3; combinations?)]`, `keys`, `keys_unsorted`, `length`, `index(1)?`, `indices(1)?`, `inside(.)`, `contains(.)`, `any`, `all`, `first?`, `last?`, `nth(1)?`,
+	`to_entries`, `(from_entries)?`, `(with_entries(.))?`, `map(.)`, `map_values(.)`, `map_values(empty)`, `walk(.)`, `[paths]`, `[paths(type == "number")]`, `[tostream]`, `fromstream(tostream)`, `getpath([0])?`, `[limit(2; .[])]`, `tojson | fromjson`, `bsearch(1)?`, `[.[] | IN(1, true)]`,
+	`del(.[0])?`, `del(.a)?`, `.[1:]?`, `. + .`, `(. - [1])?`, `.[] |= .`, `has(0)?`, `has("a")?`, `map(tostring)`, `map(tojson)`, `[.[] | tostring]`, `[.[] | numbers]`, `[.[] | scalars]`, `map(select(. != null))`, `map(type)`, `[.. ]`, `[..|numbers]`, `[leaf_paths?]`, `pick(.[0])?`, `pick(.a)?`, `toarray?`, `(tonumber)?`, `ascii_downcase?`,
+	`[splits(",")?]`, `ltrimstr("a")`, `[.[] | tostring | ascii_downcase]`, `[.[] | tojson | fromjson]`, `@json "v=\(.)"`, `"\(.)"`, `[.[] | "\(.)"]`, `map([.])`, `map({v: .})`, `[.[] as $x | $x]`, `. as [$a, $b] ?// {$a, $b} | [$a, $b]`, `reduce .[] as $x (0; . + 1)`, `[foreach .[] as $x (0; . + 1; [$x, .])]`, `to_entries | map(.value)`, `with_entries(.value |= tostring)?`,
+	`[.[] | tostring] | join("-")`, `map(tostring) | join(",")`, `[.[]?] | join("/")`, `(.[1:] | join(","))?`, `([.[]] | join(","))`, `. as $x | $x | join(",")`, `[limit(2; repeat(join(",")))]`, `(.a | join(","))?`, `(.[0] | join(","))?`, `[.[] | arrays | join(",")]`,
+}
+
+var sharedContainers = []string{`[1,true,"a",null,2.5,[1],{"a":1}]`, `[1,2,3,true,false,null,"x",1.5,100000000000000000000]`, `{"a":1,"b":true,"c":"x","d":null,"e":[1,2.5],"f":{"g":2}}`, `[[1,true],[2,false,"s"]]`, `{"a":[1,true,"a",null,2.5]}`}
+
 func (g *gen) update(nRandom int) []program {
 	var ps []program
 	fixed := fixedInputs()
 	for _, t := range updateMust {
 		ps = append(ps, program{Src: t, Kind: "update", Inputs: fixed})
+	}
+	var sharedIn []any
+	for _, c := range sharedContainers {
+		var v any
+		if json.Unmarshal([]byte(c), &v) == nil {
+			sharedIn = append(sharedIn, normalizeJSON(v))
+		}
+	}
+	for _, t := range sharedNatives {
+		ps = append(ps, program{Src: t, Kind: "update", Inputs: sharedIn})
 	}
 	for i := 0; i < nRandom; i++ {
 		// inputs: the value the paths are drawn from, a few more of the same shape,
@@ -633,4 +661,26 @@ func (g *gen) corpus(index, of int, thorough bool, quickN int) []program {
 		ps = append(ps, program{Src: e.Query, Kind: "corpus", Inputs: e.Inputs})
 	}
 	return ps
+}
+
+// normalizeJSON turns encoding/json's float64 into gojq's carriers (int where integral).
+func normalizeJSON(v any) any {
+	switch v := v.(type) {
+	case float64:
+		if v == float64(int(v)) && v < 1e15 && v > -1e15 {
+			return int(v)
+		}
+		return v
+	case []any:
+		for i := range v {
+			v[i] = normalizeJSON(v[i])
+		}
+		return v
+	case map[string]any:
+		for k := range v {
+			v[k] = normalizeJSON(v[k])
+		}
+		return v
+	}
+	return v
 }
